@@ -2260,3 +2260,98 @@ def str_starts_with(ctx):
         off = simp(s.len - n)
         return Bool(simp(z3.And([z3.UGE(s.len, BV(n, 64))] + [s.at(simp(off + i)) == pv.at(i) for i in range(n)])))
     return Bool(simp(z3.And([z3.UGE(s.len, BV(n, 64))] + [s.at(i) == pv.at(i) for i in range(n)])))
+
+
+# --------------------------------------------------------------------------- str splitting, over-approximated (sound for panic-site reachability)
+#
+# trim / split / split_once are modelled by their SHAPE only: a trimmed string is some sub-slice of the input, a split yields
+# some number of pieces each no longer than the input, split_once yields nothing or two such pieces.  Every real result is
+# among the modelled ones, so a panic site that is unreachable here is unreachable in the real code; functional facts about
+# the pieces are not available (specs that need them do not use these contracts).
+
+@contract(r'^(?:std::string::)?String::with_capacity$|^(?:std::string::)?String::new$')
+def string_with_capacity(ctx):
+    return Bytes.from_terms([], 'string')
+
+
+@contract(r'^core::str::<impl str>::(trim|trim_end|trim_start)$|^core::str::(trim|trim_end|trim_start)$')
+def str_trim(ctx):
+    ex, st = ctx.ex, ctx.st
+    loc = BufLoc(ex, st, ctx.args[0])
+    b = loc.val
+    off = BV(0, 64) if ctx.callee.endswith('trim_end') else z3.BitVec(fresh_name('trim_off'), 64)
+    n = z3.BitVec(fresh_name('trim_len'), 64)
+    ex.assume(st, z3.And(z3.ULE(off, b.len), z3.ULE(n, b.len), z3.ULE(simp(off + n), b.len)))
+    if ctx.callee.endswith('trim_start'):
+        ex.assume(st, simp(off + n) == b.len)
+    cell, path = loc.loc
+    if path and path[-1][0] == 'slice':
+        return Ref(cell, path[:-1] + (('slice', simp(U64(path[-1][1]) + off), n),))
+    return Ref(cell, path + (('slice', off, n),))
+
+
+@contract(r'^core::str::<impl str>::(split_ascii_whitespace|split_whitespace)$|^core::str::(split_ascii_whitespace|split_whitespace)$'
+          r'|^core::str::<impl str>::(split|splitn|rsplitn|rsplit|split_terminator)::<.*>$|^core::str::(split|splitn|rsplitn|rsplit|split_terminator)::<.*>$')
+def str_split(ctx):
+    ex, st = ctx.ex, ctx.st
+    src = BufLoc(ex, st, ctx.args[0]).val
+    limit = None
+    if re.search(r'splitn', ctx.callee) and len(ctx.args) > 1 and isinstance(ctx.args[1], Int):
+        limit = ctx.args[1].t
+    return Agg('str::Split', {0: src, 1: Int(limit, 64, False) if limit is not None else UNIT})
+
+
+@contract(r"^<(?:std::str::|core::str::)?(?:SplitAsciiWhitespace|SplitWhitespace|Split|SplitN|RSplitN|RSplit|SplitTerminator)<.*> as Iterator>::collect::<Vec<&str>>$")
+def str_split_collect(ctx):
+    ex, st = ctx.ex, ctx.st
+    sp = ctx.args[0]
+    if not (isinstance(sp, Agg) and sp.name == 'str::Split'):
+        return NotImplemented
+    src = sp.fields[0]
+    k = z3.BitVec(fresh_name('pieces'), 64)
+    ex.assume(st, z3.ULE(k, simp(src.len + 1)))
+    if isinstance(sp.fields.get(1), Int):
+        ex.assume(st, z3.ULE(k, sp.fields[1].t))
+    cache = {}
+
+    def at(i, cache=cache, src=src):
+        key = concrete(i) if not isinstance(i, int) else i
+        key = key if key is not None else str(i)
+        if key not in cache:
+            # the length bound is part of the value (no state is touched here: the sequence outlives the state it was made in)
+            raw = Bytes.symbolic(fresh_name('piece'), 'str')
+            cache[key] = Bytes(raw._at, simp(z3.If(z3.ULE(raw.len, src.len), raw.len, src.len)), 'str')
+        return cache[key]
+    return SeqV(at, k, None, '&str', 'vec')
+
+
+@contract(r'^core::str::<impl str>::split_once::<.*>$|^core::str::split_once::<.*>$|^core::str::<impl str>::rsplit_once::<.*>$')
+def str_split_once(ctx):
+    ex, st = ctx.ex, ctx.st
+    src = BufLoc(ex, st, ctx.args[0]).val
+    d = z3.BitVec(fresh_name('split_once'), 64)
+    ex.assume(st, z3.ULT(d, BV(2, 64)))
+    a, b = Bytes.symbolic(fresh_name('before'), 'str'), Bytes.symbolic(fresh_name('after'), 'str')
+    ex.assume(st, z3.And(z3.ULE(a.len, src.len), z3.ULE(b.len, src.len)))
+    tup = Agg('tuple', {0: a, 1: b})
+    return Agg('Option', {}, d, {1: {0: tup}}, ex.si.enums['Option'])
+
+
+@contract(r"^<(?:std::str::|core::str::)?(?:SplitAsciiWhitespace|SplitWhitespace|Split|SplitN|RSplitN|RSplit|SplitTerminator)<.*> as Iterator>::next$")
+def str_split_next(ctx):
+    """next piece of a split: nothing, or some piece no longer than the input (over-approximation, see above)"""
+    ex, st = ctx.ex, ctx.st
+    r = ctx.args[0]
+    sp = ex.load(st, r.cell, r.path)
+    if not (isinstance(sp, Agg) and sp.name == 'str::Split'):
+        return NotImplemented
+    src = sp.fields[0]
+    d = z3.BitVec(fresh_name('has_piece'), 64)
+    ex.assume(st, z3.ULT(d, BV(2, 64)))
+    if isinstance(sp.fields.get(1), Int):
+        left = sp.fields[1].t
+        ex.assume(st, z3.Implies(left == BV(0, 64), d == BV(0, 64)))
+        ex.store(st, r.cell, r.path, sp.with_field(1, Int(simp(z3.If(d == BV(1, 64), left - 1, left)), 64, False)))
+    raw = Bytes.symbolic(fresh_name('piece'), 'str')
+    piece = Bytes(raw._at, simp(z3.If(z3.ULE(raw.len, src.len), raw.len, src.len)), 'str')
+    return Agg('Option', {}, d, {1: {0: piece}}, ex.si.enums['Option'])
